@@ -19,6 +19,7 @@
 
 #include "diffcore_port.h"
 #include "steer.h"
+#include "tablewrap.h"
 
 using namespace verif;
 
@@ -269,5 +270,6 @@ int main(int argc, char ** argv)
     }
     run(sp, seed, n_iid, n_grid, hostile, deep_events);
   }
+  if (VERIF_TABLEWRAP_ACTIVE) fprintf(OUT, "{\"tablewrap_divdif_calls\":%ld}\n", (long)verif::g_divdif_wrapped);
   return 0;
 }
